@@ -586,13 +586,13 @@ def dl_cases(draw):
     vals = [[draw(st.integers(0, 9)) for _ in range(n)] for _ in range(m)]  # exactly representable in every dtype above
     fam = draw(st.sampled_from([DL_DTYPES, ('float64', 'float32', 'int64'), ('object', 'int64', '<U1')]))
     base_dt = draw(st.sampled_from(fam))
-    dts_a = [base_dt if draw(st.integers(0, 3)) else draw(st.sampled_from(fam)) for _ in range(m)]
-    dts_b = [dts_a[j] if draw(st.integers(0, 2)) else draw(st.sampled_from(fam)) for j in range(m)]
+    dts_a = [base_dt if draw(st.integers(0, 3)) < 3 else draw(st.sampled_from(fam)) for _ in range(m)]
+    dts_b = [dts_a[j] if draw(st.integers(0, 2)) < 2 else draw(st.sampled_from(fam)) for j in range(m)]
     cut = lambda: [draw(st.booleans()) for _ in range(max(m - 1, 0))]  # noqa: E731  (join column j with j+1 when dtypes allow)
     edit = draw(st.one_of(st.none(), st.tuples(st.integers(0, m - 1), st.integers(0, n - 1))))
     return {'vals': vals, 'dts_a': dts_a, 'dts_b': dts_b, 'cut_a': cut(), 'cut_b': cut(), 'edit': edit,
             'opts': {'compare_name': draw(st.booleans()), 'compare_dtype': draw(st.booleans()), 'compare_class': draw(st.booleans()), 'skipna': draw(st.booleans())},
-            'series': draw(st.integers(0, 5)) == 0}
+            'series': draw(st.integers(0, 5)) == 5}
 
 
 def _dl_cols(vals, dts):
@@ -666,8 +666,8 @@ def check_dl(case):
 
 
 SUBS = [
-    Sub('triples', cases(), check, quick=2500, thorough=48000, tag=tag,
+    Sub('triples', cases(), check, quick=10000, thorough=48000, tag=tag,
         rule='equals vs reference predicate on recipes; symmetry; reflexivity on fresh copies; transitivity; HE ==/!=/hash/set'),
-    Sub('dtype_layouts', dl_cases(), check_dl, quick=2000, thorough=48000,
+    Sub('dtype_layouts', dl_cases(), check_dl, quick=8000, thorough=48000,
         rule='equal (or one-cell-different) numbers under independently drawn per-column dtypes and independent block layouts on the two sides; equals in both directions vs per-column reference; FrameHE ==/hash'),
 ]
